@@ -230,7 +230,7 @@ public:
 
 class NiBlendBoolInterpolator : public NiCloneableStreamable<NiBlendBoolInterpolator, NiBlendInterpolator> {
 public:
-	bool value = false;
+	uint8_t value = 0; // Byte in the file; real files also hold 2 ("invalid")
 
 	static constexpr const char* BlockName = "NiBlendBoolInterpolator";
 	const char* GetBlockName() override { return BlockName; }
